@@ -43,13 +43,15 @@ func (wl *WhopLoc) Eval(s *Scope, depth int) Object {
 }
 
 func (wl *WhopLoc) Continue(s *Scope, args List, depth int) Object {
-	for wl.Current++; wl.Current < len(wl.Method.Combinations); wl.Current++ {
-		wrap := wl.Method.Combinations[wl.Current].Wrap
+	// Current is the index of the running wrapper, the next one is the
+	// first wrapper after it.
+	for i := wl.Current + 1; i < len(wl.Method.Combinations); i++ {
+		wrap := wl.Method.Combinations[i].Wrap
 		if wrap == nil {
 			continue
 		}
 		ws := s.NewScope()
-		ws.Let("~whopper-location~", &WhopLoc{Method: wl.Method, Current: wl.Current + 1})
+		ws.Let("~whopper-location~", &WhopLoc{Method: wl.Method, Current: i})
 		if lam, ok := wrap.(*Lambda); ok {
 			lam.Closure = ws
 		}
@@ -59,8 +61,8 @@ func (wl *WhopLoc) Continue(s *Scope, args List, depth int) Object {
 }
 
 func (wl *WhopLoc) HasNext() bool {
-	for wl.Current++; wl.Current < len(wl.Method.Combinations); wl.Current++ {
-		if wl.Method.Combinations[wl.Current].Wrap != nil {
+	for i := wl.Current + 1; i < len(wl.Method.Combinations); i++ {
+		if wl.Method.Combinations[i].Wrap != nil {
 			return true
 		}
 	}
